@@ -281,6 +281,7 @@ def gen_case(seed, tier='quick'):
     world = {'class': cls, 'info': info, 'nodes': nodes, 'sheets': sheets,
              'switches': switches, 'padding': padding,
              'decoy': rng.random() < 0.3,
+             'evaluator_first': rng.random() < 0.12,
              'range_names': range_names,
              'names': ctx['names'],
              'qualify': bool(two or rng.random() < 0.3),
@@ -575,6 +576,15 @@ def simple_paths(g, e, cap=400):
 # --------------------------------------------------------------------------
 
 def run_case(case):
+    from ..seams import SimFS, install_fs, uninstall_fs
+    install_fs(SimFS())
+    try:
+        return _run_case(case)
+    finally:
+        uninstall_fs()
+
+
+def _run_case(case):
     from xlcalculator import Evaluator
     world = case['world']
     cells = render(world)
@@ -612,7 +622,20 @@ def run_case(case):
                 pass
         model = worlds.build_model(cells, names, default_sheet=s0)
         uf = UserFuncs(fail_on=world.get('fail_on'))
-        ev = Evaluator(model, uf.namespace())
+        if world.get('evaluator_first'):
+            # the evaluator exists before the model gets its contents (the
+            # same Model object is filled from a persisted file afterwards)
+            from xlcalculator import Model
+            from ..seams import _Installed
+            model.persist_to_json_file('/simfs/c06.json')
+            model = Model()
+            ev = Evaluator(model, uf.namespace())
+            model.construct_from_json_file('/simfs/c06.json',
+                                           build_code=True)
+            _Installed.fs.reset_op()
+            bump('probe:evaluator_created_before_model_was_loaded')
+        else:
+            ev = Evaluator(model, uf.namespace())
         for seq, op in enumerate(case['ops']):
             if viol is not None:
                 break
